@@ -73,6 +73,7 @@ struct Model {
     front_or_retract: [bool; 2],
     /// per predicate: an asserta happened / a call went through first-argument indexing
     asserta_seen: [bool; 2],
+    retract_seen: [bool; 2],
     indexed_call: [bool; 2],
     /// a re-entrant retract/1 that reaches a clause someone else removed meanwhile may still
     /// offer it as an answer (true) or skip it (false): the statement fixes neither, so the
@@ -155,6 +156,7 @@ impl Model {
 
     fn note_retraction(&mut self, pred: &str, first: &str) {
         self.front_or_retract[pred_ix(pred)] = true;
+        self.retract_seen[pred_ix(pred)] = true;
         let k = index_key(Some(first)).unwrap();
         if !self.bucket_retracted.iter().any(|(p, key)| p == pred && *key == k) {
             self.bucket_retracted.push((pred.to_string(), k));
@@ -613,10 +615,10 @@ impl Check for C09 {
                 2 => "assert-into-bucket-after-retract",
                 // 4: asserta/1 on a predicate that is also called with a bound first argument
                 4 => "asserta-and-indexed-call",
-                _ => "var-headed-clause-with-asserta-or-retract",
+                _ => "var-headed-clause-with-retract-and-asserta",
             };
             for v in out.violations.iter_mut() {
-                if hazard == 3 || !v.key.starts_with("with-open-clause-cursor:") {
+                if !v.key.starts_with("with-open-clause-cursor:") {
                     v.key = format!("{pre}:{}", v.key.split(':').next().unwrap_or(""));
                 }
             }
@@ -715,7 +717,17 @@ impl C09 {
         if model.index_hazard {
             out.bump("histories_modifying_the_bucket_of_an_open_indexed_cursor", 1);
         }
-        *hazard = if var_hazard { 3 } else { 0 };
+        // (hazard 3, "a variable-first-argument clause in a predicate that also sees an asserta or
+        // a retraction", was keyed apart until the clause-threading defects behind it were
+        // repaired in /repo)
+        if var_hazard {
+            out.bump("histories_with_var_headed_clause_and_asserta_or_retract", 1);
+        }
+        // what is left of it: a variable-first-argument clause in a predicate that sees BOTH a
+        // retraction and an asserta (a call with a bound first argument then loses a later
+        // variable-headed clause)
+        let narrow = (0..2).any(|i| model.var_headed[i] && model.retract_seen[i] && model.asserta_seen[i]);
+        *hazard = if narrow { 3 } else { 0 };
         let want_db = model.db_text();
         if out_stats_dup {
             out.bump("histories_asserting_into_a_bucket_after_a_retraction", 1);
